@@ -2,12 +2,15 @@
  * (coap_resource_init, coap_add_attr, coap_resource_set_get_observable, coap_add_resource,
  * coap_print_wellknown, coap_print_link).  One case per line; same format as ocaml/d_link.ml.
  *
- *   wk        { R <path> <flags> <nattr> { <name> <val> }* }*  F <filter>  W all
- *   wk        { R ... }*                                        F <filter>  W list { <off> <len> }*
- *   lk <idx>  { R ... }*                                        F ~         W all | list ...
+ *   table ops: R <path> <flags> <nattr> { <name> <val> }*  (init, add_attr.., add_resource)
+ *              D <path>                                     (coap_delete_resource)
+ *              U | P                                        (unknown-resource / proxy-URI resource: never listed)
+ *   lfwk      { R <path> <flags> <nattr> { <name> <val> }* }*  F <filter>  W all
+ *   lfwk      { R ... }*                                        F <filter>  W list { <off> <len> }*
+ *   lflk <idx> { R ... }*                                        F ~         W all | list ...
  *
  *   <path> <name> : "-" (empty) | hex          <val> : "~" (no value) | "-" (empty) | hex
- *   <flags>       : 1 = observable, 2 = OSCORE only        <filter> : "~" (none) | "-" | hex
+ *   <flags>       : 1 = observable, 2 = OSCORE only, 4 = exact-size strings (RELEASE flags)        <filter> : "~" (none) | "-" | hex
  *
  * Every call writes into an exact-size heap buffer (sanitizer build: overruns trap; plain
  * build: a guard zone behind the buffer is checked); the filter is an exact-size heap copy
@@ -21,6 +24,11 @@
  */
 #include "coap3/coap_libcoap_build.h"
 #include "common/util.h"
+#include <sys/socket.h>
+#include <netinet/in.h>
+#include <arpa/inet.h>
+#include <poll.h>
+#include <unistd.h>
 
 #if defined(__has_feature)
 #if __has_feature(address_sanitizer)
@@ -64,18 +72,95 @@ static coap_string_t *filter_of_tok(const char *t) {
   return f;
 }
 
+/* a coap_str_const_t whose object ends with the last byte of the string */
+static coap_str_const_t *exact_str(const uint8_t *b, size_t n) {
+  coap_str_const_t *s = (coap_str_const_t *)coap_malloc_type(COAP_STRING, sizeof(coap_str_const_t) + n);
+  s->length = n;
+  s->s = (const uint8_t *)s + sizeof(coap_str_const_t);
+  if (n) memcpy((uint8_t *)s + sizeof(coap_str_const_t), b, n);
+  return s;
+}
+
+static void hnd_dummy(coap_resource_t *r, coap_session_t *s, const coap_pdu_t *req,
+                      const coap_string_t *q, coap_pdu_t *resp) {
+  (void)r; (void)s; (void)req; (void)q;
+  coap_pdu_set_code(resp, COAP_RESPONSE_CODE_CONTENT);
+}
+
 /* parse the table starting at vtok[i]; returns the index of the token after it */
 static int build_table(int i) {
   nres = 0;
   ctx = coap_new_context(NULL);
   if (!ctx) return -1;
-  while (i < vntok && !strcmp(vtok[i], "R")) {
+  while (i < vntok && (!strcmp(vtok[i], "R") || !strcmp(vtok[i], "D") || !strcmp(vtok[i], "U") ||
+                       !strcmp(vtok[i], "P") || !strcmp(vtok[i], "M"))) {
     size_t n;
+    if (!strcmp(vtok[i], "M")) {       /* M <n>: n resources by formula (see tools/gen_link.py many_ops) */
+      int cnt = atoi(vtok[i + 1]);
+      for (int k = 0; k < cnt; k++) {
+        char pb[32], vb[32];
+        coap_str_const_t path, name = { 2, (const uint8_t *)"rt" }, val;
+        coap_resource_t *r;
+        path.length = (size_t)snprintf(pb, sizeof(pb), "r/%d", (k * 7919) % 10007);
+        path.s = (const uint8_t *)pb;
+        r = coap_resource_init(&path, (k % 4 & 2) ? COAP_RESOURCE_FLAGS_OSCORE_ONLY : 0);
+        if (k % 3) {
+          val.length = (size_t)snprintf(vb, sizeof(vb), "\"t%d s\"", k % 5);
+          val.s = (const uint8_t *)vb;
+          coap_add_attr(r, &name, &val, 0);
+        }
+        if (k % 4 & 1) coap_resource_set_get_observable(r, 1);
+        coap_add_resource(ctx, r);
+        if (k % 17 == 5) {
+          coap_resource_t *dr;
+          path.length = (size_t)snprintf(pb, sizeof(pb), "r/%d", ((k - 3) * 7919) % 10007);
+          dr = coap_get_resource_from_uri_path(ctx, &path);
+          if (dr) coap_delete_resource(ctx, dr);
+        }
+      }
+      nres = 0;                        /* lk is not used with M */
+      i += 2;
+      continue;
+    }
+    if (!strcmp(vtok[i], "U")) {       /* the unknown-resource handler: registered, not listed */
+      coap_add_resource(ctx, coap_resource_unknown_init(hnd_dummy));
+      i += 1;
+      continue;
+    }
+    if (!strcmp(vtok[i], "P")) {       /* a proxy-URI resource: registered, not listed */
+      const char *names[] = { "proxy.example" };
+      coap_add_resource(ctx, coap_resource_proxy_uri_init(hnd_dummy, 1, names));
+      i += 1;
+      continue;
+    }
+    if (!strcmp(vtok[i], "D")) {       /* D <path> : coap_delete_resource of the resource with that path */
+      uint8_t *db = bytes_of_tok(vtok[i + 1], &n);
+      coap_str_const_t dp = { n, db };
+      coap_resource_t *dr = coap_get_resource_from_uri_path(ctx, &dp);
+      if (dr) {
+        for (int k = 0; k < nres; k++)
+          if (res[k] == dr) {
+            memmove(&res[k], &res[k + 1], sizeof(res[0]) * (size_t)(nres - k - 1));
+            nres--;
+            break;
+          }
+        coap_delete_resource(ctx, dr);
+      }
+      free(db);
+      i += 2;
+      continue;
+    }
     uint8_t *b = bytes_of_tok(vtok[i + 1], &n);
     int fl = atoi(vtok[i + 2]);
     int na = atoi(vtok[i + 3]);
     coap_str_const_t path = { n, b };
-    coap_resource_t *r = coap_resource_init(&path, (fl & 2) ? COAP_RESOURCE_FLAGS_OSCORE_ONLY : 0);
+    /* flags bit 2 (value 4): the path, names and values are handed over as exact-size objects
+     * (RELEASE flags: libcoap keeps the caller's object, nothing - no terminator - follows the
+     * bytes), so that a read behind a string traps in the sanitizer build */
+    coap_resource_t *r = (fl & 4)
+      ? coap_resource_init(exact_str(b, n), ((fl & 2) ? COAP_RESOURCE_FLAGS_OSCORE_ONLY : 0) |
+                                             COAP_RESOURCE_FLAGS_RELEASE_URI)
+      : coap_resource_init(&path, (fl & 2) ? COAP_RESOURCE_FLAGS_OSCORE_ONLY : 0);
     free(b);
     i += 4;
     for (int a = 0; a < na; a++, i += 2) {
@@ -88,7 +173,11 @@ static int build_table(int i) {
         val.length = vn;
         val.s = vb;
       }
-      coap_add_attr(r, &name, vb ? &val : NULL, 0);
+      if (fl & 4)
+        coap_add_attr(r, exact_str(nb, nn), vb ? exact_str(vb, vn) : NULL,
+                      COAP_ATTR_FLAGS_RELEASE_NAME | COAP_ATTR_FLAGS_RELEASE_VALUE);
+      else
+        coap_add_attr(r, &name, vb ? &val : NULL, 0);
       free(nb);
       free(vb);
     }
@@ -226,14 +315,303 @@ out:
   if (filter) { free(filter->s); free(filter); }
 }
 
+
+/* ------------------------------------------------------------------ GET through the server
+ *   lfget <mode> { table ops }  { F <query> }*  { B <szx> }*
+ * <mode> bit 0: COAP_BLOCK_USE_LIBCOAP (else block mode 0, the default); bit 1: the server's
+ * block size is capped at 64 (coap_context_set_max_block_size); bit 2: the client is a libcoap
+ * client session with COAP_BLOCK_USE_LIBCOAP | COAP_BLOCK_SINGLE_BODY instead of the raw client.  <query>: "~" no
+ * Uri-Query option, else one Uri-Query option with these bytes (several F: several options).
+ * A server endpoint is bound to 127.0.0.1:0; the harness is the client and speaks raw CoAP over a
+ * connected UDP socket: one GET without Block2, then for each B <szx> a block-wise GET starting
+ * with Block2 = 0/0/szx and continuing (with the size the server answers with) until More is
+ * clear.  Output: "205 <body> b<szx>=<reassembled body>.. oracle=..".  The oracle checks per
+ * block: code 2.05, Content-Format 40, block number echoed, every block but the last full. */
+static size_t put_opt(uint8_t *o, unsigned delta, const uint8_t *v, size_t n) {
+  size_t k = 1;
+  unsigned dn = delta < 13 ? delta : delta < 269 ? 13 : 14;
+  unsigned ln = n < 13 ? (unsigned)n : n < 269 ? 13 : 14;
+  o[0] = (uint8_t)(dn << 4 | ln);
+  if (dn == 13) o[k++] = (uint8_t)(delta - 13);
+  else if (dn == 14) { o[k++] = (uint8_t)((delta - 269) >> 8); o[k++] = (uint8_t)(delta - 269); }
+  if (ln == 13) o[k++] = (uint8_t)(n - 13);
+  else if (ln == 14) { o[k++] = (uint8_t)((n - 269) >> 8); o[k++] = (uint8_t)(n - 269); }
+  if (n) memcpy(o + k, v, n);
+  return k + n;
+}
+
+static uint16_t g_mid = 0x1000;
+static uint16_t g_tok = 1;
+
+/* one request/response; with_block < 0: no Block2 option. returns response length or -1 */
+#define MAXQ 8
+static uint8_t *g_q[MAXQ];
+static size_t g_qn[MAXQ];
+static int g_nq;
+
+static ssize_t exchange(int fd, const uint8_t *q, size_t qn, int has_q, int with_block,
+                        unsigned num, unsigned szx, uint8_t *resp, size_t cap) {
+  uint8_t req[2048];
+  size_t n = 0;
+  struct pollfd pf;
+  req[n++] = 0x42;                       /* ver 1, CON, TKL 2 */
+  req[n++] = 0x01;                       /* GET */
+  g_mid++;
+  req[n++] = (uint8_t)(g_mid >> 8); req[n++] = (uint8_t)g_mid;
+  req[n++] = (uint8_t)(g_tok >> 8); req[n++] = (uint8_t)g_tok;
+  n += put_opt(req + n, 11, (const uint8_t *)".well-known", 11);
+  n += put_opt(req + n, 0, (const uint8_t *)"core", 4);
+  (void)q; (void)qn;
+  for (int k = 0; k < g_nq; k++) n += put_opt(req + n, k ? 0 : 4, g_q[k], g_qn[k]);
+  if (with_block >= 0) {
+    uint8_t bv[3];
+    unsigned long v = ((unsigned long)num << 4) | szx;
+    size_t bl = v == 0 ? 0 : v < 256 ? 1 : v < 65536 ? 2 : 3;
+    for (size_t i = 0; i < bl; i++) bv[i] = (uint8_t)(v >> (8 * (bl - 1 - i)));
+    n += put_opt(req + n, has_q ? 8 : 12, bv, bl);
+  }
+  if (send(fd, req, n, 0) != (ssize_t)n) return -1;
+  for (int tries = 0; tries < 50; tries++) {
+    coap_io_process(ctx, COAP_IO_NO_WAIT);
+    pf.fd = fd; pf.events = POLLIN; pf.revents = 0;
+    if (poll(&pf, 1, tries ? 20 : 0) > 0) {
+      ssize_t r = recv(fd, resp, cap, 0);
+      if (r >= 4 && resp[2] == (uint8_t)(g_mid >> 8) && resp[3] == (uint8_t)g_mid) return r;
+    }
+  }
+  return -1;
+}
+
+/* a whole (possibly block-wise) GET; first request carries Block2 0/0/szx when szx >= 0 */
+static int g_rounds;
+static int fetch(int fd, const uint8_t *q, size_t qn, int has_q, int szx,
+                 uint8_t **body, size_t *blen, char *bad, size_t badn) {
+  uint8_t resp[4096];
+  size_t got = 0, cap = 256;
+  uint8_t *b = (uint8_t *)malloc(cap);
+  unsigned num = 0;
+  int with_block = szx >= 0 ? 1 : -1;
+  unsigned cur_szx = szx >= 0 ? (unsigned)szx : 6;
+  g_tok++;
+  g_rounds = 0;
+  for (int round = 0; round < 100000; round++) {
+    coap_pdu_t *p;
+    coap_block_t blk;
+    coap_opt_iterator_t oi;
+    coap_opt_t *cf;
+    size_t dl = 0;
+    const uint8_t *data = NULL;
+    int hasb;
+    ssize_t r = exchange(fd, q, qn, has_q, with_block, num, cur_szx, resp, sizeof(resp));
+    if (r < 0) { snprintf(bad, badn, "FAIL:no-response(num=%u)", num); free(b); return -1; }
+    g_rounds++;
+    p = coap_pdu_init(0, 0, 0, (size_t)r);
+    if (!p || !coap_pdu_parse(COAP_PROTO_UDP, resp, (size_t)r, p)) {
+      snprintf(bad, badn, "FAIL:unparsable-response"); free(b); return -1;
+    }
+    if (coap_pdu_get_code(p) != COAP_RESPONSE_CODE(205)) {
+      int c = coap_pdu_get_code(p);
+      coap_delete_pdu(p); free(b);
+      return (c >> 5) * 100 + (c & 31);
+    }
+    cf = coap_check_option(p, COAP_OPTION_CONTENT_FORMAT, &oi);
+    if (!bad[0] && (!cf || coap_decode_var_bytes(coap_opt_value(cf), coap_opt_length(cf)) != 40))
+      snprintf(bad, badn, "FAIL:content-format");
+    coap_get_data(p, &dl, &data);
+    hasb = coap_get_block(p, COAP_OPTION_BLOCK2, &blk);
+    if (got + dl + 1 > cap) { cap = (got + dl) * 2 + 64; b = (uint8_t *)realloc(b, cap); }
+    if (dl) memcpy(b + got, data, dl);
+    if (hasb) {
+      size_t sz = (size_t)1 << (blk.szx + 4);
+      if (!bad[0] && got != (size_t)blk.num * sz)
+        snprintf(bad, badn, "FAIL:block-num(%u*%zu!=%zu)", blk.num, sz, got);
+      if (!bad[0] && blk.m && dl != sz) snprintf(bad, badn, "FAIL:short-block(num=%u,len=%zu)", blk.num, dl);
+      if (!bad[0] && dl > sz) snprintf(bad, badn, "FAIL:long-block(num=%u,len=%zu)", blk.num, dl);
+      if (!bad[0] && szx >= 0 && blk.szx > (unsigned)szx) snprintf(bad, badn, "FAIL:bigger-block-than-asked");
+      if (!bad[0] && round > 0 && blk.szx != cur_szx) snprintf(bad, badn, "FAIL:block-size-changed(num=%u)", blk.num);
+      got += dl;
+      if (!blk.m) { coap_delete_pdu(p); break; }
+      cur_szx = blk.szx;
+      num = (unsigned)(got / sz);
+      with_block = 1;
+    } else {
+      got += dl;
+      coap_delete_pdu(p);
+      break;
+    }
+    coap_delete_pdu(p);
+  }
+  *body = b;
+  *blen = got;
+  return 205;
+}
+
+
+/* ---- the same GET issued by a libcoap client (mode bit 2^2): second context with
+ * COAP_BLOCK_USE_LIBCOAP | COAP_BLOCK_SINGLE_BODY, a client session to the server endpoint;
+ * the response handler receives the reassembled body. */
+static uint8_t *cl_body;
+static size_t cl_len, cl_cap;
+static int cl_done, cl_code;
+
+static coap_response_t cl_handler(coap_session_t *s, const coap_pdu_t *sent, const coap_pdu_t *rcv,
+                                  const coap_mid_t mid) {
+  size_t len = 0, off = 0, total = 0;
+  const uint8_t *data = NULL;
+  (void)s; (void)sent; (void)mid;
+  cl_code = coap_pdu_get_code(rcv);
+  if (coap_get_data_large(rcv, &len, &data, &off, &total)) {
+    if (off + len > cl_cap) { cl_cap = (off + len) * 2 + 64; cl_body = (uint8_t *)realloc(cl_body, cl_cap); }
+    memcpy(cl_body + off, data, len);
+    if (off + len > cl_len) cl_len = off + len;
+    if (off + len >= total) cl_done = 1;
+  } else {
+    cl_done = 1;
+  }
+  return COAP_RESPONSE_OK;
+}
+
+/* returns the response code as decimal (205), body in cl_body/cl_len */
+static int client_fetch(coap_context_t *cctx, coap_session_t *sess, int szx) {
+  coap_pdu_t *pdu = coap_new_pdu(COAP_MESSAGE_CON, COAP_REQUEST_CODE_GET, sess);
+  uint8_t tok[8], bv[1];
+  size_t tl = 0;
+  if (!pdu) return -1;
+  coap_session_new_token(sess, &tl, tok);
+  coap_add_token(pdu, tl, tok);
+  coap_add_option(pdu, COAP_OPTION_URI_PATH, 11, (const uint8_t *)".well-known");
+  coap_add_option(pdu, COAP_OPTION_URI_PATH, 4, (const uint8_t *)"core");
+  for (int k = 0; k < g_nq; k++) coap_add_option(pdu, COAP_OPTION_URI_QUERY, g_qn[k], g_q[k]);
+  if (szx >= 0) {
+    bv[0] = (uint8_t)szx;
+    coap_add_option(pdu, COAP_OPTION_BLOCK2, szx ? 1 : 0, bv);
+  }
+  cl_len = 0; cl_done = 0; cl_code = 0;
+  if (coap_send(sess, pdu) == COAP_INVALID_MID) return -1;
+  for (int it = 0; it < 20000 && !cl_done; it++) {
+    coap_io_process(ctx, COAP_IO_NO_WAIT);
+    coap_io_process(cctx, it % 8 == 7 ? 2 : COAP_IO_NO_WAIT);
+  }
+  if (!cl_done) return -1;
+  return (cl_code >> 5) * 100 + (cl_code & 31);
+}
+
+static void run_get(int i) {
+  int mode = atoi(vtok[1]);
+  coap_address_t addr;
+  coap_endpoint_t *ep;
+  struct sockaddr_in sa;
+  socklen_t sl = sizeof(sa);
+  int fd, has_q = 0, code;
+  uint8_t *q = NULL, *body = NULL;
+  size_t qn = 0, bn = 0;
+  char bad[160], blocks[400];
+  size_t bo = 0;
+  bad[0] = 0;
+  blocks[0] = 0;
+  if (mode & 1) coap_context_set_block_mode(ctx, COAP_BLOCK_USE_LIBCOAP);
+  if (mode & 2) coap_context_set_max_block_size(ctx, 64);   /* the server caps the block size */
+  coap_address_init(&addr);
+  addr.addr.sin.sin_family = AF_INET;
+  addr.addr.sin.sin_addr.s_addr = htonl(INADDR_LOOPBACK);
+  addr.addr.sin.sin_port = 0;
+  addr.size = sizeof(struct sockaddr_in);
+  ep = coap_new_endpoint(ctx, &addr, COAP_PROTO_UDP);
+  if (!ep) { puts("ERROR endpoint"); return; }
+  if (getsockname(ep->sock.fd, (struct sockaddr *)&sa, &sl) < 0) { puts("ERROR getsockname"); return; }
+  fd = socket(AF_INET, SOCK_DGRAM, 0);
+  if (fd < 0 || connect(fd, (struct sockaddr *)&sa, sizeof(sa)) < 0) { puts("ERROR client socket"); return; }
+  g_nq = 0;
+  while (i + 1 < vntok && !strcmp(vtok[i], "F")) {
+    if (strcmp(vtok[i + 1], "~") && g_nq < MAXQ) {
+      g_q[g_nq] = bytes_of_tok(vtok[i + 1], &g_qn[g_nq]);
+      g_nq++;
+      has_q = 1;
+    }
+    i += 2;
+  }
+  if (mode & 4) {
+    coap_context_t *cctx = coap_new_context(NULL);
+    coap_address_t dst;
+    coap_session_t *sess;
+    coap_address_init(&dst);
+    dst.addr.sin = sa;
+    dst.size = sizeof(struct sockaddr_in);
+    coap_context_set_block_mode(cctx, COAP_BLOCK_USE_LIBCOAP | COAP_BLOCK_SINGLE_BODY);
+    coap_register_response_handler(cctx, cl_handler);
+    sess = coap_new_client_session(cctx, NULL, &dst, COAP_PROTO_UDP);
+    if (!sess) { puts("ERROR client session"); coap_free_context(cctx); goto out; }
+    code = client_fetch(cctx, sess, -1);
+    if (code != 205) {
+      if (code < 0) printf("NORESPONSE oracle=FAIL:client\n"); else printf("%d\n", code);
+    } else {
+      fputs("205 ", stdout);
+      hex_full(stdout, cl_body, cl_len);
+      bo += (size_t)snprintf(blocks + bo, sizeof(blocks) - bo, "0");
+      for (; i + 1 < vntok && !strcmp(vtok[i], "B"); i += 2) {
+        int szx = atoi(vtok[i + 1]);
+        code = client_fetch(cctx, sess, szx);
+        if (code != 205) { printf(" b%d=CODE%d", szx, code); continue; }
+        printf(" b%d=", szx);
+        hex_full(stdout, cl_body, cl_len);
+        if (bo + 16 < sizeof(blocks)) bo += (size_t)snprintf(blocks + bo, sizeof(blocks) - bo, ",0");
+      }
+      printf(" blocks=%s oracle=ok\n", blocks);
+    }
+    coap_session_release(sess);
+    coap_free_context(cctx);
+    goto out;
+  }
+  code = fetch(fd, q, qn, has_q, -1, &body, &bn, bad, sizeof(bad));
+  if (code != 205) {
+    if (code < 0) printf("NORESPONSE oracle=%s\n", bad); else printf("%d\n", code);
+    goto out;
+  }
+  fputs("205 ", stdout);
+  hex_full(stdout, body, bn);
+  free(body);
+  bo += (size_t)snprintf(blocks + bo, sizeof(blocks) - bo, "%d", g_rounds);
+  for (; i + 1 < vntok && !strcmp(vtok[i], "B"); i += 2) {
+    int szx = atoi(vtok[i + 1]);
+    code = fetch(fd, q, qn, has_q, szx, &body, &bn, bad, sizeof(bad));
+    if (code != 205) { printf(" b%d=CODE%d", szx, code); continue; }
+    printf(" b%d=", szx);
+    hex_full(stdout, body, bn);
+    free(body);
+    if (bo + 16 < sizeof(blocks)) bo += (size_t)snprintf(blocks + bo, sizeof(blocks) - bo, ",%d", g_rounds);
+  }
+  printf(" blocks=%s oracle=%s\n", blocks, bad[0] ? bad : "ok");
+out:
+  close(fd);
+  free(q);
+  for (int k = 0; k < g_nq; k++) free(g_q[k]);
+  g_nq = 0;
+}
+
 int main(void) {
   coap_startup();
   coap_set_log_level(COAP_LOG_EMERG);
   while (next_case(stdin)) {
     int lk = -1, i = 1;
     if (vntok == 0) { puts(""); continue; }
-    if (!strcmp(vtok[0], "lk")) { lk = atoi(vtok[1]); i = 2; }
-    else if (strcmp(vtok[0], "wk")) { puts("ERROR unknown command"); continue; }
+    if (!strcmp(vtok[0], "lfconst")) {
+      printf("max=%lu uint=%lu wk=", (unsigned long)COAP_PRINT_STATUS_MAX, (unsigned long)UINT_MAX);
+      hex_full(stdout, (const uint8_t *)COAP_DEFAULT_URI_WELLKNOWN, sizeof(COAP_DEFAULT_URI_WELLKNOWN) - 1);
+      fputc('\n', stdout);
+      fflush(stdout);
+      continue;
+    }
+    if (!strcmp(vtok[0], "lfget")) {
+      i = build_table(2);
+      if (i < 0) { puts("ERROR no context"); continue; }
+      run_get(i);
+      coap_free_context(ctx);
+      ctx = NULL;
+      fflush(stdout);
+      continue;
+    }
+    if (!strcmp(vtok[0], "lflk")) { lk = atoi(vtok[1]); i = 2; }
+    else if (strcmp(vtok[0], "lfwk")) { puts("ERROR unknown command"); continue; }
     i = build_table(i);
     if (i < 0) { puts("ERROR no context"); continue; }
     run_case(lk, i);
